@@ -153,6 +153,20 @@ def run(tier):
         pc_cells = [c for c in pc_cells if any(c.desc.startswith(x) or c.desc == x for x in pick)]
     ex.run_priorities(nthreads, cells=[c for c in pc_cells if c.leg != 'copy'], label='1 priority change', demote=1)
     ex.run_priorities(nthreads, cells=[c for c in pc_cells if c.leg == 'copy'], label='2 priority changes', demote=2)
+    if not quick:
+        # compression with up to two workers: all priority orders x two priority-change points (measured once by
+        # hand for six shapes x both modes x W=1..3: 3.5 million executions, one outcome each)
+        pc2 = sched.Explorer(chk, scratch=ex.dir)
+        for sp in ('EEEE', 'ZEZs', 'EZE'):
+            for mode in ([], ['-u']):
+                for W in (1, 2):
+                    e = expected.get(('compress' + ('-seq' if mode else ''), 'shape=%r W=%d' % (sp, W))) or \
+                        expected.get(('compress' + ('-seq' if mode else ''), 'shape=%r W=1 (more chunks than input slots)' % sp))
+                    if e is not None:
+                        pc2.add('compress+2-priority-changes', 'fast', ['-n%d' % W, '-1'] + mode, inputs.shape(sp), sched.expect_exact(0, e),
+                                'shape=%r W=%d %s' % (sp, W, ' '.join(mode)), {'nprio': W + 3, 'demote': 2}, policies='prio:%d' % (W + 3))
+        pc2.run_pass(2, time_limit=min(420, chk.left() * 0.3))
+        pc2.finish_cov('')
     # priority-change points (PCT-style): strict-priority schedulers in which, at up to k points of the run, the
     # thread that would run next drops to the lowest priority -- a thread is starved from an arbitrary moment on.
     # Shapes: blocks with planted spurious candidates followed by blocks whose output takes most output slots.
